@@ -18,6 +18,10 @@ def fsync(mode, nq, nt, pq=2, pt=8, extra=None):
             "trace_module": "Trace_FilterSync",
             "n": {"quick": nq, "thorough": nt}, "procs": {"quick": pq, "thorough": pt}}
 
+def mc_cp(name, quick, tq=600, tt=3000):
+    return {"module": "MC_CheckPoints", "cfg": {"quick": ("MC_CheckPoints_%s.cfg" % name) if quick else None, "thorough": "MC_CheckPoints_%s.cfg" % name},
+            "timeout": {"quick": tq, "thorough": tt}, "workers": 8}
+
 FS_ASSUMPTIONS = COMMON_ASSUMPTIONS + [
     "the index is read back by a raw scan of the RocksDB keyspace after every event and compared with the ground truth TLC derives from the world (Index.tla)",
     "Golomb-coded filters may match more blocks than necessary: the specification only requires the true matches",
@@ -36,6 +40,16 @@ CHECKS = {
         "mc": [],
         "drivers": [fsync("fork", 40, 300, 4, 10), fsync("forkrand", 15, 100, 1, 4)],
         "assumptions": FS_ASSUMPTIONS,
+    },
+    "C07": {
+        "trace_module": "Trace_FilterSync",
+        "mc": [mc_cp("a", True), mc_cp("b", False), mc_cp("c", False), mc_cp("d", False), mc_cp("e", False), mc_cp("f", False)],
+        "drivers": [fsync("cp", 40, 300, 4, 10), fsync("pump", 6, 40, 1, 3)],
+        "assumptions": COMMON_ASSUMPTIONS + [
+            "check point values are identified with block ids (SimChain gives every block a unique filter hash); invented values are negative ids shared by colluding liars",
+            "a banned peer is disconnected by the network layer before its next message (enforce_bans)",
+            "'a peer contradicting a final value is banned' is read as: by the first refresh that has at least the quorum of proven peers (with fewer, finalize_check_points returns before looking at any vector; DESIGN.md 4 C07)",
+        ],
     },
     "C09": {
         "trace_module": "Trace_FilterSync",
